@@ -80,6 +80,12 @@ process:
 	user := atomic.LoadInt32(&m.num)
 	verifhook.Yield("mb.proc.loadsy", m)
 	system := atomic.LoadInt32(&m.systemNum)
+	if system <= 0 && user > 0 {
+		// 暂停期间只剩普通消息时不再重新调度，否则处理协程会空转占满 CPU；Resume 会重新触发处理
+		if atomic.LoadUint32(&m.paused) == 1 {
+			user = 0
+		}
+	}
 	if user > 0 || system > 0 {
 		verifhook.Yield("mb.proc.recas", m)
 		if atomic.CompareAndSwapUint32(&m.status, idle, processing) {
